@@ -104,7 +104,8 @@ __CPROVER_ensures(g_mul_calls == __CPROVER_old(g_mul_calls) + 1 && g_mul_r == C5
 void g2_mul_c5(g2_t r, const g2_t p, const bn_t k) VC_ASSIGNS(__CPROVER_object_upto(r, sizeof(ep2_st)), g_mul_calls, g_mul_r, g_mul_p, g_mul_k, __CPROVER_object_whole(g_mulb))
 __CPROVER_ensures(g_mul_calls == __CPROVER_old(g_mul_calls) + 1 && g_mul_r == C5_P(r) && g_mul_p == C5_P(p) && g_mul_k == C5_P(k) && C5_CNT2(g_mulb, p, k));
 void ep_mul_lwnaf_c5(ep_t r, const ep_t p, const bn_t k) VC_ASSIGNS(__CPROVER_object_upto(r, sizeof(ep_st)), g_mul_calls, g_mul_r, g_mul_p, g_mul_k, __CPROVER_object_whole(g_mulb))
-__CPROVER_ensures(g_mul_calls == __CPROVER_old(g_mul_calls) + 1 && g_mul_r == C5_P(r) && g_mul_p == C5_P(p) && g_mul_k == C5_P(k) && C5_CNT2(g_mulb, p, k));
+__CPROVER_ensures(g_mul_calls == __CPROVER_old(g_mul_calls) + 1 && g_mul_r == C5_P(r) && g_mul_p == C5_P(p) && g_mul_k == C5_P(k))
+__CPROVER_ensures(C5_CNT2(g_mulb, p, k));
 /* r = [k]p + [m]q */
 void ep_mul_sim_inter_c5(ep_t r, const ep_t p, const bn_t k, const ep_t q, const bn_t m)
 VC_ASSIGNS(__CPROVER_object_upto(r, sizeof(ep_st)), g_mul_calls, g_mul_r, g_mul_p, g_mul_k, __CPROVER_object_whole(g_mulb))
